@@ -246,6 +246,25 @@ def mon_c01_scen(im, p):
                 except Exception as e:
                     outs.append((type(e).__name__, ''))
             return outs
+        # an independent count of the node evaluations the program starts (every Op.eval entry, from outside), on a parser
+        # and ast objects of its own: the program completes iff N > count
+        p0 = sqimpl.Impl(ns).p
+        an0 = None
+        if sc.get('astfns'):
+            an0 = {n: A.LambdaOp(args=[A.NameOp(q) for q in ps], expr=p0.parse(body)) for n, ps, body in sc['astfns']}
+        names0 = dict(evalimpl.Host({}).fns)
+        names0.update({k: D(v) if not isinstance(v, list) else [D(x) for x in v] for k, v in sc.get('names', {}).items()})
+        if sc.get('reenter'):
+            names0['sub'] = lambda src, _p=p0: _p.eval(src, {})
+        count = None
+        with EvalTrace(ns) as tr:
+            try:
+                p0.eval(sc['src'], names0, max_ops_evaluated=10 ** 6, **({'ast_names': an0} if an0 is not None else {}))
+                count = tr.entries
+            except Exception:
+                pass
+        if sc.get('reenter'):
+            count = None       # the inner evaluation's nodes are counted too but charged to its own budget
         big = run(10 ** 6)[0]
         # K: smallest budget at which the program completes (found by bisection on a fresh parser each time is costly:
         # the same parser is the point of the scenario)
@@ -260,6 +279,8 @@ def mon_c01_scen(im, p):
                 lo = mid + 1
         K = lo
         why = None
+        if count is not None and K != count + 1:
+            why = f'the program starts {count} node evaluations, so it needs budget {count + 1}; on a parser used before it completes from N={K} on'
         for N in sorted({max(1, K // 3), max(1, K // 2), K - 2, K - 1}):
             if N < 1 or N >= K:
                 continue
